@@ -23,7 +23,7 @@ class WbDecWorld(World):
                        "requesting initiator (seeded byzantine agent)")
     fault_kinds = ("byzantine_request", "garbage_dat_r_unselected", "multi_response",
                    "err_response", "rty_response", "stall_response", "nobody_selected_with_cyc",
-                   "stb_without_cyc", "rejected_re_add", "memory_map_assigned_through_setter",
+                   "stb_without_cyc", "rejected_re_add", "rejected_invalid_add", "memory_map_assigned_through_setter",
                    "second_instance_in_process", "queried_or_elaborated_while_being_populated")
     assumptions = (
         "Amaranth's Python RTL simulator executes the elaborated netlist faithfully",
@@ -73,6 +73,8 @@ class WbDecWorld(World):
         return {"aw": aw, "dw": dw, "g": g, "feats": sorted(feats), "al": al, "subs": subs,
                 "feats_as": rng.choice(["str", "str", "enum", "frozenset", "list", "tuple"]),
                 "omit": int(rng.chance(0.3)),
+                "bad_add": rng.choice(["gran_greater", "dense_dw", "sparse_dw", "not_interface"])
+                if rng.chance(0.15) else None,
                 "own_map": int(rng.chance(0.08)), "twin_decoder": int(rng.chance(0.1)),
                 "mid": rng.below(3) if rng.chance(0.12) else None,
                 "mid_how": rng.choice(["elab", "patterns"])}
@@ -198,6 +200,34 @@ class WbDecWorld(World):
                     raise Violation("C07", "duplicate-subordinate-accepted", 0, "")
                 except ValueError:
                     stats.fault("rejected_re_add")
+        if config.get("bad_add"):
+            # fault: an add() the decoder has to refuse (and survive unchanged)
+            kind = config["bad_add"]
+            bad = None
+            kw = {}
+            if kind == "gran_greater" and 2 * g <= 64:
+                bad = wishbone.Interface(addr_width=1, data_width=max(dw, 2 * g), granularity=2 * g)
+                bad.memory_map = MemoryMap(addr_width=1 + log2(max(dw, 2 * g) // (2 * g)),
+                                           data_width=2 * g)
+            elif kind == "dense_dw":
+                odw = dw // 2 if dw // 2 >= 8 else dw * 2
+                og = min(g, odw)
+                bad = wishbone.Interface(addr_width=1, data_width=odw, granularity=og)
+                bad.memory_map = MemoryMap(addr_width=1 + log2(odw // og), data_width=og)
+            elif kind == "sparse_dw":
+                bad = wishbone.Interface(addr_width=1, data_width=16, granularity=8)
+                bad.memory_map = MemoryMap(addr_width=2, data_width=8)
+                kw["sparse"] = True
+            elif kind == "not_interface":
+                bad = object()
+            if bad is not None:
+                try:
+                    dut.add(bad, name="bad", **kw)
+                    raise Violation("C07", "invalid-subordinate-accepted", 0,
+                                    f"add() accepted a subordinate it must refuse ({kind})",
+                                    key=f"invalid-subordinate-accepted:{kind}")
+                except (ValueError, TypeError):
+                    stats.fault("rejected_invalid_add")
         sim = hw.build_sim(hw.make_top(dut))
         b = dut.bus
         amask = (1 << aw) - 1
